@@ -14,6 +14,7 @@ mod pipe;
 mod mrg;
 mod flt;
 mod arg;
+mod plg;
 
 pub use rng::Rng;
 
@@ -38,6 +39,7 @@ fn area(name: &str) -> Box<dyn Area> {
         "mrg" => Box::new(mrg::Mrg),
         "flt" => Box::new(flt::Flt),
         "arg" => Box::new(arg::Arg),
+        "plg" => Box::new(plg::Plg),
         _ => {
             eprintln!("unknown area {}", name);
             std::process::exit(2)
